@@ -126,7 +126,7 @@ def pair_queues(ctx, rep):
         if fi.parent is not None:
             continue
         for ci in ctx.instances(fi):
-            ps, it = ctx.paths(fi, ci)
+            ps, it = ctx.paths(fi, ci, depth=3)
             runs.append((fi, ci, ps, it))
             for p in ps:
                 incs = [(q.metric_of(e), e) for e in p.calls() if q.metric_of(e)]
